@@ -113,6 +113,13 @@ fn exec(c: &Case, idx: usize, out: &mut Out) -> bool {
         out.inconclusive(idx, "generator produced a program its own type checker rejects");
         return false;
     }
+    let dq: Vec<&str> = super::progcase::dyn_quarantined(c).into_iter().filter(|q| *q != "modulo").collect();
+    if !dq.is_empty() {
+        for q in dq {
+            out.quarantined(idx, q);
+        }
+        return false;
+    }
     let r = check(c);
     if let Some(w) = &r.inconclusive {
         out.inconclusive(idx, w);
